@@ -166,7 +166,7 @@ def api_stage(ev, prop, tier, seed):
             c["doc"] = None
             out.write(json.dumps(c) + "\n")
     trace = os.path.join(WORK, f"{prop}-api-{os.getpid()}.trace")
-    n_events, crashes = run_worker(cases, trace, per_case_timeout=60 if tier == 'thorough' else 25, max_crashes=6)
+    n_events, crashes = run_worker(cases, trace, per_case_timeout=60 if tier == 'thorough' else 25, max_crashes=6 if tier != 'thorough' else 12)
     log(f"[worker] {n_events} events, {len(crashes)} crashes/timeouts")
     with open(trace) as f:
         lines = f.readlines()
@@ -246,7 +246,7 @@ def _cls_deep_nesting_overflow(m, params):
     e = m.get("event") or {}
     i = m.get("id")
     return (m.get("check") == "api" and e.get("ev") == "crash" and isinstance(i, list) and len(i) == 3
-            and i[0] == "nest" and i[1] in ("filter", "paren", "notparen") and isinstance(i[2], int) and i[2] >= 2048
+            and i[0] == "nest" and i[1] in ("filter", "paren", "notparen", "fnfilter", "cmpfilter", "gefilter", "fnarg") and isinstance(i[2], int) and i[2] >= 2048
             and "exit status -6" in str(e.get("how")))
 
 
